@@ -10,7 +10,8 @@ package crypto
 //@ uninterp Sha3Of(s mathint) Hash
 //@ uninterp SigOK(key mathint, message mathint, sig mathint) bool
 //@ uninterp DeriveOf(key mathint) mathint
-//@ uninterp PublicOf(key mathint) mathint
+//@ -- (C32) defined: the canonical encoding of ScalarDec(key)*G (T-GROUP vocabulary of /verif/govc/trusted/c32.spec); was uninterpreted
+//@ spec PublicOf(key mathint) mathint = PointEnc(ScalarDec(key))
 //@ uninterp CanonicalScalar(key mathint) bool
 
 //@ assume func Sha256Hash(data)
@@ -29,10 +30,7 @@ package crypto
 //@   modifies nothing
 //@   ensures seq(result) == DeriveOf(seq(k)) && CanonicalScalar(seq(result))
 
-//@ assume func (k Key) Public
-//@   panics when !CanonicalScalar(seq(k))
-//@   modifies nothing
-//@   ensures seq(result) == PublicOf(seq(k))
+//@ -- (Key).Public: VERIFIED contract in zz_contracts_c32_verif.go (same panics when / modifies nothing / ensures seq(result) == PublicOf(seq(k)))
 
 //@ func (h Hash) ForNetwork
 //@   property C30
